@@ -15,12 +15,18 @@ EXPLANATION = (
     "Static decision of the structural clauses of C18: (R1) iodata.__main__.convert is a thin wrapper "
     "-- its only calls are dump_many(load_many(..)) under `many` and dump_one(load_one(..)) otherwise, "
     "resolved to iodata.api, every convert parameter bound (by signature, positional or keyword) to the "
-    "API parameter of the same role and nothing else passed; (R2) every argparse destination reaches the "
-    "convert parameter of the same role, flags are store_true/False; (R3) main/convert/parse_args contain "
-    "no try, no exit call and no file access of their own, so an API exception ends the process non-zero; "
-    "(R4) the console script points at iodata.__main__:main.  Decides the wrapper's structure, not the "
+    "API parameter of the same role and nothing else passed (other calls are tolerated only when they see none "
+    "of convert's data and do not touch the file system); (R2) every argparse destination reaches the "
+    "convert parameter of the same role, flags are store_true/False; (R3) exit-status analysis: every exception "
+    "handler in main/convert/parse_args ends by re-raising or with a failure status, no contextlib.suppress, no "
+    "file access of their own, and a status returned by main() reaches sys.exit on both entry paths (console "
+    "script and `python -m iodata`), so an API exception ends the process non-zero; "
+    "(R4) the console script points at iodata.__main__:main; (R5) the required lists of all writers are truthful "
+    "(nullness analysis shared with C08-R4), so a conversion that must fail fails before the output is opened.  "
+    "Decides the wrapper's structure, not the "
     "byte-for-byte equality observed through a subprocess (declined: run-time observation)."
 )
+TECHNIQUE = "static analysis: call-binding rules on the CLI wrapper, argparse destination binding, exit-status analysis of handlers and entry paths, nullness abstract interpretation of the writers' required lists"
 TRUSTED = [
     "CPython ast parser",
     "argparse destination naming rule (first long option, '-' -> '_')",
@@ -58,7 +64,7 @@ def run(ctx):
     conv = prog.func("iodata.__main__.convert")
     main = prog.func("iodata.__main__.main")
     api = {n: prog.func(f"iodata.api.{n}") for n in API_ROLE}
-    ctx.clauses_decided = ["R1 thin wrapper", "R2 argparse binding", "R3 no swallowed failure", "R4 console script"]
+    ctx.clauses_decided = ["R1 thin wrapper", "R2 argparse binding", "R3 no swallowed failure", "R4 console script", "R5 writers' required lists are truthful (failed conversions leave the output untouched)"]
     ctx.clauses_declined = [
         "byte-for-byte equality observed through a subprocess",
         "effect of np.seterr trapping on particular inputs (can only turn success into non-zero exit)",
@@ -72,7 +78,12 @@ def run(ctx):
     for cs in calls:
         tgt = cs.callees[0] if cs.callees else None
         if tgt is None or tgt not in api.values():
-            ctx.violate("R1", "convert() calls something other than the four API functions", conv, cs.node)
+            # other calls are harmless for the wrapper clause unless they see convert's data (file names, formats,
+            # flags, loaded objects) or touch the file system
+            sees = {x.id for x in ast.walk(cs.node) if isinstance(x, ast.Name)} & set(conv.locals)
+            fsys = bool(cs.external) and cs.external.split(".")[0] in ("os", "shutil", "pathlib", "tempfile", "io") or cs.external in ("builtins.open",)
+            if sees or fsys or cs.callees:
+                ctx.violate("R1", "convert() calls something other than the four API functions with its own data" if not fsys else f"convert() touches the file system itself via {cs.external}", conv, cs.node)
             continue
         api_calls.setdefault(tgt.name, []).append(cs)
     for nm in API_ROLE:
@@ -328,3 +339,10 @@ def run(ctx):
         ctx.violate("R4", f"console script iodata-convert points at {tgt!r}", relpath="pyproject.toml", function="project.scripts", construct=f"iodata-convert = {tgt!r}")
     ctx.floor("R1", ctx.rules["R1"]["obligations"], 10, "wrapper obligations")
     ctx.floor("R2", ctx.rules["R2"]["obligations"], 10, "argument-binding obligations")
+
+    # ------------------------------------------------------------------ R5
+    # a conversion that is going to fail must fail before the output file is opened: that rests on the declared
+    # required lists being truthful for every writer the CLI can select (same analysis as C08-R4)
+    from .c08_required import check_required_truthfulness
+
+    check_required_truthfulness(ctx, "R5")
